@@ -534,6 +534,22 @@ Proof.
   exists (event_entries c o en st' e p). split; [reflexivity|]. split; [apply record_uniq; assumption | apply single_line].
 Qed.
 
+(** ... and every such line parses (strict parser, fuel = its length) as that one object: exactly, when it carries no
+    finite float; with float tokens left uninterpreted, for any float printer that writes RFC 8259 float tokens *)
+Theorem run_lines_parse pf c o en ops line :
+  float_token pf ->
+  Forall op_ok ops -> (forall e p, In (OEvent e p) ops -> event_ok o e) ->
+  In line (run c o en ops) ->
+  exists kvs, line = render (JObj kvs) ++ [10] /\ uniq (JObj kvs) /\
+              parse_line (render_with pf (JObj kvs) ++ [10]) = Some (zero_floats (JObj kvs)) /\
+              (no_float (JObj kvs) = true -> parse_line line = Some (JObj kvs)).
+Proof.
+  intros Hpf Hops Hev H. destruct (run_records c o en ops line Hops Hev H) as (kvs & -> & U & _).
+  exists kvs. split; [reflexivity|]. split; [exact U|]. split.
+  - apply parse_line_render_with. exact Hpf.
+  - intro NF. apply (parse_line_render (JObj kvs) NF).
+Qed.
+
 (** the per-operation view used by the correspondence is the same output *)
 Lemma run_ops_concat c o en : forall ops st, concat (run_ops_from c o en st ops) = run_from c o en st ops.
 Proof. induction ops as [|x ops IH]; intro st; [reflexivity|]. simpl. rewrite IH. reflexivity. Qed.
@@ -700,7 +716,8 @@ Theorem gen_matches_model :
   gen_jsonvisitor_strip_raw = model_jsonvisitor_strip_raw /\
   gen_serdemap_methods = model_serdemap_methods /\
   gen_jsonvisitor_log_skip = model_jsonvisitor_log_skip /\
-  gen_lifecycle = model_lifecycle /\ gen_lifecycle_parent_is_span = true /\ gen_timing_off_without_time = true.
+  gen_lifecycle = model_lifecycle /\ gen_lifecycle_parent_is_span = true /\ gen_timing_off_without_time = true /\
+  gen_metadata_normalised_under_log = true.
 Proof. repeat split; reflexivity. Qed.
 
 (** the model's string escaping IS serde_json's ESCAPE table (read from the dependency's source on every run), on every
